@@ -111,6 +111,18 @@ def structured (impl : TNetlist) : Netlist :=
     assigns := impl.assigns.map fun (lhs, kind, names) =>
       (parseNet lhs, if kind = "id" then .id (parseNet (names.headD "?")) else .and1 (names.map parseNet)) }
 
+/-- declarations of the emitted netlist (executable form of `data_nets_declared`): every data net
+    that an instance connection or an assign mentions is declared `rsize` bits wide (an undeclared
+    identifier is an implicit 1-bit net), and no valid / received net is declared wider than 1 -/
+def declsOk (impl : TNetlist) (rsize : Nat) : Bool :=
+  let used := impl.insts.flatMap (fun i => i.2.2) ++ impl.assigns.flatMap (fun a => a.1 :: a.2.2)
+  let isData (n : String) : Bool := match parseNet n with | .data b => b.kind ≤ 3 | _ => false
+  used.all (fun n => !isData n || impl.decls.any (fun d => d.name == n && d.width == rsize)) &&
+  impl.decls.all (fun d => match parseNet d.name with
+    | .data b => b.kind > 3 || d.width == rsize
+    | .clk => d.width == 1 | .reset => d.width == 1
+    | _ => d.width == 1)
+
 def compareNet (impl : TNetlist) (other : Nat) (t : Topo) (rsize : Nat) : String :=
   let nl := wire t rsize
   let model := nl.render
@@ -283,7 +295,8 @@ def endCase (st : St) : List String :=
         let n := compareNet tn st.other st.topo st.rsize
         -- the property itself on the emitted netlist: tells a wrong connection from a harmless variation
         if n.startsWith "N ok" then [n]
-        else [n, if exactB (structured tn) st.topo && tn.assigns.all (fun a => a.2.1 != "other") then "NE ok" else "NE fail"]
+        else [n, if exactB (structured tn) st.topo && tn.assigns.all (fun a => a.2.1 != "other") && declsOk tn st.rsize
+                 then "NE ok" else "NE fail"]
     else []
   let simLines :=
     if st.started then
